@@ -13,7 +13,7 @@ import os, re, shutil, subprocess, sys, tempfile
 ENV = dict(os.environ, GOFLAGS="-mod=mod", GOPROXY="off", GOSUMDB="off", GOTOOLCHAIN="local")
 ENV.pop("GOWORK", None)
 LINT = "/verif/bin/raftlint"
-CACHE = "/tmp/seedbase-cache"
+CACHE = "/tmp/seedbase-cache2"
 
 
 def sh(cmd, cwd=None):
@@ -40,7 +40,15 @@ def main():
     out = f"/verif/seeded/{name}"
     patch = f"{out}/patch.diff"
     own = name.split("-")[0]
-    commits = sh("git -C /repo rev-list -n 60 HEAD").stdout.split()
+    commits = sh("git -C /repo rev-list -n 80 HEAD").stdout.split()
+    # A seed whose edit later became (part of) a repair is evaluated on the tree of its day: C14-7 takes the snapshot
+    # directory's name at Close(), which broke C14 while takeSnapshot published with the node mutex released, and which
+    # IS the repair of D23 (84c6dad) since D52 (1675477) moved the publication under the mutex.
+    NOT_AFTER = {"C14-7": "b698102"}
+    if name in NOT_AFTER:
+        full = sh("git -C /repo rev-parse " + NOT_AFTER[name]).stdout.strip()
+        if full in commits:
+            commits = commits[commits.index(full):]
     base = None
     d = tempfile.mkdtemp(prefix="seedeval.", dir="/tmp")
     try:
@@ -82,9 +90,17 @@ def main():
                     b = tempfile.mkdtemp(prefix="seedbase.", dir="/tmp")
                     sh(f"git -C /repo archive {base} | tar -x -C {b}")
                 _, bk = reports(b, p)
-                open(cf, "w").write("\n".join("%s\t%s" % k for k in sorted(bk)) + "\n")
-            basekeys = set(tuple(l.split("\t", 1)) for l in open(cf).read().splitlines() if "\t" in l)
-            new = {k: v for k, v in keys.items() if k not in basekeys}
+                open(cf, "w").write("\n".join("%s\t%s\t%s" % (k[0], k[1], bk[k]) for k in sorted(bk)) + "\n")
+            # a construct the base commit already violates counts again when the patch makes it violated in ANOTHER way
+            # (a different report text): the seed C15-3 rewrites the very assignment that D51 later repaired
+            base = {}
+            for l in open(cf).read().splitlines():
+                parts = l.split("\t", 2)
+                if len(parts) == 3:
+                    base[(parts[0], parts[1])] = parts[2]
+            def strip_pos(t):
+                return re.sub(r" at \S+:\d+:", " at :", t)
+            new = {k: v for k, v in keys.items() if k not in base or strip_pos(base[k]) != strip_pos(v)}
             if not new:
                 continue
             viol = any(not v.startswith(("UNDECIDED", "ANCHOR-LOST")) for v in new.values())
